@@ -20,7 +20,10 @@ Qed.
 Definition skip_to (a e : Z) : Prop := forall q fuel r, l_pos q = a -> skip_space_loop inp n fuel q = Ok r -> l_pos r = e.
 
 Lemma isSpace_EOL ch : gen_isSpace ch = true -> gen_isSpaceEOL ch = true.
-Proof. intros H. unfold gen_isSpaceEOL. rewrite H. reflexivity. Qed.
+Proof. (* by value, whatever the spelling of the three predicates (harmless2/1 re-spells isSpaceEOL as one switch) *)
+  unfold gen_isSpaceEOL, gen_isSpace, gen_isEndOfLine. lia. Qed.
+Lemma isEndOfLine_EOL ch : gen_isEndOfLine ch = true -> gen_isSpaceEOL ch = true.
+Proof. unfold gen_isSpaceEOL, gen_isSpace, gen_isEndOfLine. lia. Qed.
 
 Lemma skip_step l ch l1 e : next inp n l = Ok (ch, l1) -> gen_isSpaceEOL ch = true -> skip_to (l_pos l1) e -> skip_to (l_pos l) e.
 Proof.
